@@ -7,7 +7,7 @@ import os
 from . import core
 
 SPEC_DIR = os.path.join(core.SPEC, "lin")
-FAMILIES = "ABCD"
+FAMILIES = "ABCDE"
 
 
 def src_hash(ev):
@@ -30,7 +30,7 @@ def n_samples(d, g):
 
 def annotate(ev, tier):
     """Choose the grid denominator per event (input selection) and estimate cost."""
-    if ev.get("out") != "ok":
+    if ev.get("out") != "ok" or "lm" not in ev:
         ev["g"] = 1
         return 1
     used = [d for d in ev["sdom"] if d["used"]]
@@ -117,7 +117,13 @@ def check(prop, tier, seed, replay=None):
             o.violation(f"panic:{src_hash(e)}", e, f"Linearizer panicked: {e.get('why')}")
     stats = {s[1]: s for s in v.stats}
     nontrivial = 0
-    for s in v.stats:
+    if prop == "C08":
+        for e in events:
+            sh = e.get("shape")
+            if e.get("out") == "err" or (sh and (len(sh["names"]) > sum(1 for d in e["sdom"] if d["used"])
+                                                 or any(r["name"] for r in sh["rownames"]))):
+                nontrivial += 1
+    for s in (v.stats if prop != "C08" else []):
         _, _id, n_env, n_feas, nb, nc = s[:6]
         if prop in ("C01", "C07"):
             nontrivial += 1 if (0 < n_feas < n_env and (nb + nc > 0 or prop == "C07")) else 0
@@ -139,14 +145,15 @@ def check(prop, tier, seed, replay=None):
     o.coverage = {
         "states": v.distinct + sum(m["gen_states"] for m in meta.values()),
         "transitions": v.generated + sum(m["gen_transitions"] for m in meta.values()),
-        "traces_validated_against_impl": len(v.stats),
+        "traces_validated_against_impl": len(v.stats) if prop != "C08" else sum(1 for e in events if e.get("out") in ("ok", "err")),
         "samples": samples or [{"note": "no sample with auxiliaries in this run"}],
         "evaluations": sum(s[2] for s in v.stats),
         "distinct_nontrivial": nontrivial,
         "rule": "events = (source model, real Linearizer output); families A-D enumerated by TLC from spec/lin/ModelGen.tla"
                 " (quick: seeded stride sample, thorough: every member) + seeded random models from the harness;"
                 " evaluations = sampled assignments judged; non-trivial = model with feasible and infeasible samples and"
-                " at least one auxiliary variable (C01/C07: any; C02: min/max objective with feasible samples and auxiliaries)",
+                " at least one auxiliary variable (C01/C07: any; C02: min/max objective with feasible samples and auxiliaries;"
+                " C08: compile error, or output with auxiliary variables or named rows)",
         "exhaustive": full,
         "families": meta,
         "outcomes": outs,
